@@ -12,7 +12,14 @@ Wave 4: operations whose ARGUMENT is one of the model's own returned objects: `d
 `delete_agents(model.agent_type_map[T])` (one `deleteown` request: the model deletes the value its own list has),
 `for i in model.agent_ids(T): model.delete_agent(i)` (the deletions that really happen are sent one by one),
 `delete_agents(held)` with a list obtained from `agent_ids` earlier (the model gets the value the list has when the
-call starts).  The real code always receives the aliased object, the model the snapshot."""
+call starts).  The real code always receives the aliased object, the model the snapshot.
+
+Wave 6: re-entrant creation.  `nest` = {key: [factory kids, initialize kids]}: the factory registered under `key`
+itself calls `model.create_agent` for each factory kid before it returns its agent, and the agent's `initialize()`
+creates each initialize kid (nesting depth bounded by 2).  Every creation (create_agent, configure_agents,
+configure) of such a type is sent to the model as the bracketed token sequence `enter k / facdone / leave` of the
+calls that really nest; the reference population assigns ids in call order (parent first) and registers in
+completion order (children first)."""
 import itertools, json, random as _pyrandom
 from common import *
 
@@ -31,12 +38,72 @@ def is_faithful(fac):
     return all((not l) or all(a == k for a in l) for k, l in (fac or {}).items())
 
 
-def new_model(fac=None):
+NEST_DEPTH = 2
+
+
+def nest_kids(nest, k, depth):
+    fk, ik = (nest or {}).get(k, ([], []))
+    return (list(fk), list(ik)) if depth < NEST_DEPTH else ([], [])
+
+
+def new_model(fac=None, nest=None):
     from BPTK_Py import Model, Agent, DataCollector, SimultaneousScheduler
     m = Model(1, 3, 1, name="c14", scheduler=SimultaneousScheduler(), data_collector=DataCollector())
+    ctx = {"depth": 0}
+
+    class NestAgent(Agent):
+        def initialize(self):
+            d = ctx["depth"]
+            for c in nest_kids(nest, self.c14_key, d)[1]:
+                ctx["depth"] = d + 1
+                try:
+                    self.model.create_agent(TYPES[c], {})
+                finally:
+                    ctx["depth"] = d
+
+    def make(kk):
+        def factory(aid, model, props):
+            d = ctx["depth"]
+            for c in nest_kids(nest, kk, d)[0]:
+                ctx["depth"] = d + 1
+                try:
+                    model.create_agent(TYPES[c], {})
+                finally:
+                    ctx["depth"] = d
+            a = NestAgent(aid, model, props, TYPES[fac_attr(fac, kk, aid)]) if nest else Agent(aid, model, props, TYPES[fac_attr(fac, kk, aid)])
+            if nest:
+                object.__setattr__(a, "c14_key", kk)
+            return a
+        return factory
     for k in REG:
-        m.register_agent_factory(TYPES[k], (lambda kk: (lambda aid, model, props: Agent(aid, model, props, TYPES[fac_attr(fac, kk, aid)])))(k))
+        m.register_agent_factory(TYPES[k], make(k))
     return m
+
+
+def create_tokens(nest, k, depth=0):
+    """the bracketed token sequence of one create_agent(k) call"""
+    fk, ik = nest_kids(nest, k, depth)
+    out = [f"enter {k}"]
+    for c in fk:
+        out += create_tokens(nest, c, depth + 1)
+    out.append("facdone")
+    for c in ik:
+        out += create_tokens(nest, c, depth + 1)
+    out.append("leave")
+    return out
+
+
+def op_lines(op, nest):
+    """request lines of one operation (creations of nesting types as token sequences)"""
+    if nest and op[0] == "create" and op[1] in REG:
+        return create_tokens(nest, op[1])
+    if nest and op[0] in ("configure", "configureall") and all(t in REG for t, _ in op[1]):
+        out = [op[0] + " -"]
+        for t, n in op[1]:
+            for _ in range(n):
+                out += create_tokens(nest, t)
+        return out
+    return [op_line(op)]
 
 
 class Scripted:
@@ -210,18 +277,24 @@ def query_real(m):
 
 class Shadow:
     """Reference semantics of the property, independent of the Lean model: the live population."""
-    def __init__(self, fac=None):
-        self.live = []      # [id, attr, st, key] in creation order
+    def __init__(self, fac=None, nest=None):
+        self.live = []      # [id, attr, st, key] in registration order
         self.next = 0
         self.ever = []
         self.fac = fac
+        self.nest = nest
     def copy(self):
-        s = Shadow(self.fac); s.live = [list(a) for a in self.live]; s.next = self.next; s.ever = list(self.ever)
+        s = Shadow(self.fac, self.nest); s.live = [list(a) for a in self.live]; s.next = self.next; s.ever = list(self.ever)
         return s
-    def create(self, k):
+    def create(self, k, depth=0):
         if k not in REG:
             return False                      # create_agent raises, nothing handed out
-        self.live.append([self.next, fac_attr(self.fac, k, self.next), 0, k]); self.ever.append(self.next); self.next += 1
+        i = self.next                         # ids are handed out in call order (unique, never reused) ...
+        self.ever.append(i); self.next += 1
+        fk, ik = nest_kids(self.nest, k, depth)
+        for c in fk + ik:
+            self.create(c, depth + 1)
+        self.live.append([i, fac_attr(self.fac, k, i), 0, k])      # ... and an agent is listed once its creation is complete
         return True
     def apply(self, op):
         k = op[0]
@@ -354,16 +427,18 @@ def concrete_ops(shadow_live, nxt):
 class Hist:
     """fac: {key: [attr by id % len]} or None; ops; mode 'full' (every query after every operation)
     or 'sparse' (queries are operations; one full query at the end)."""
-    def __init__(self, ops, fac=None, mode="full", tag="random"):
-        self.ops, self.fac, self.mode, self.tag = list(ops), fac, mode, tag
+    def __init__(self, ops, fac=None, mode="full", tag="random", nest=None):
+        self.ops, self.fac, self.mode, self.tag, self.nest = list(ops), fac, mode, tag, nest
     def contract(self):
         return is_faithful(self.fac) and not any(
             o[0] == "callerappend" or (o[0] == "create" and o[1] not in REG) or (o[0] in ("delown", "deliter", "hold") and o[1] not in REG)
             or (o[0] in ("configure", "configureall") and any(t not in REG for t, _ in o[1])) for o in self.ops)
     def lines(self):
-        return [f"fac {k} " + (",".join(map(str, l)) or "-") for k, l in sorted((self.fac or {}).items())] + [op_line(o) for o in self.ops]
+        return [f"fac {k} " + (",".join(map(str, l)) or "-") for k, l in sorted((self.fac or {}).items())] + \
+               [f"nest {k} {v}" for k, v in sorted((self.nest or {}).items())] + [op_line(o) for o in self.ops]
     def replay(self):
         return {"fac": {str(k): l for k, l in (self.fac or {}).items()}, "mode": self.mode,
+                "nest": {str(k): [list(v[0]), list(v[1])] for k, v in (self.nest or {}).items()},
                 "ops": [op_line(o) for o in self.ops],
                 "variants": [o[2] if o[0] == "configureall" else 0 for o in self.ops]}
 
@@ -371,7 +446,7 @@ class Hist:
 def run_history(h):
     """Real code on the history.  Returns (request lines, real reply lines (None = not comparable),
     first (index, violations))."""
-    m, sh = new_model(h.fac), Shadow(h.fac)
+    m, sh = new_model(h.fac, h.nest), Shadow(h.fac, h.nest)
     contract = h.contract()
     spec_ok = not any(o[0] == "callerappend" for o in h.ops)      # after a caller mutation nothing is promised
     req, real, viols = ["new " + ",".join(map(str, REG))], ["ok"], []
@@ -381,7 +456,8 @@ def run_history(h):
     def do(i, op, arg_obj=None):
         nonlocal viols, spec_ok
         ans = apply_real(m, op, arg_obj)
-        req.append(op_line(op)); real.append(ans)
+        ls = op_lines(op, h.nest)
+        req.extend(ls); real.extend(["ok"] * (len(ls) - 1) + [ans])
         v = []
         if op[0] == "q":
             if spec_ok:
@@ -434,11 +510,11 @@ def shrink(h, fails):
         changed = False
         for i in range(len(ops)):
             cand = ops[:i] + ops[i + 1:]
-            if cand and fails(Hist(cand, h.fac, h.mode, h.tag)):
+            if cand and fails(Hist(cand, h.fac, h.mode, h.tag, h.nest)):
                 ops = cand
                 changed = True
                 break
-    return Hist(ops, h.fac, h.mode, h.tag)
+    return Hist(ops, h.fac, h.mode, h.tag, h.nest)
 
 
 # ------------------------------------------------------------------ probes
@@ -469,6 +545,25 @@ def probe_delete_snapshot():
         return ok1 and ok2
     except Exception:
         return False
+
+
+def probe_id_reservation():
+    """When is next_agent_id incremented: observed from inside a factory and from inside initialize()."""
+    from BPTK_Py import Model, Agent, DataCollector, SimultaneousScheduler
+    seen = {}
+    class A(Agent):
+        def initialize(self):
+            seen["init"] = (self.id, self.model.next_agent_id)
+    def factory(aid, model, props):
+        seen["fac"] = (aid, model.next_agent_id)
+        return A(aid, model, props, "a")
+    try:
+        m = Model(1, 3, 1, name="c14p", scheduler=SimultaneousScheduler(), data_collector=DataCollector())
+        m.register_agent_factory("a", factory)
+        m.create_agent("a", {}); m.create_agent("a", {})
+        return seen["fac"][1] == seen["fac"][0] + 1, seen["init"][1] == seen["init"][0] + 1
+    except Exception:
+        return False, False
 
 
 def probe_alias():
@@ -511,7 +606,7 @@ ANYATTR_WITNESSES = [   # (name, fac, ops, what the Lean witness theorem says th
 ]
 
 
-def gen_lean(count_by_id, aliased, snapshot=True):
+def gen_lean(count_by_id, aliased, snapshot=True, reserve=(True, True)):
     b = "true" if count_by_id else "false"
     a = "true" if aliased else "false"
     d = "true" if snapshot else "false"
@@ -529,9 +624,24 @@ def gen_lean(count_by_id, aliased, snapshot=True):
     elif aliased:
         body += ("/-- ids are removed in place while the argument is iterated: `delete_agents(agent_ids(t))` leaves dead ids listed. -/\n"
                  "theorem own_lists_corrupt : ¬ C14_full_aliased cfg := C14_witness_delete_inplace cfg (by decide) (by decide)\n#print axioms own_lists_corrupt\n")
+    tf = lambda x: "true" if x else "false"
+    if reserve[0] and count_by_id:
+        body += ("/-- the id is reserved before the factory runs: re-entrant creation (from factories and from initialize()) is safe. -/\n"
+                 "theorem nested_holds : C14_full_nested cfg cfgn := C14_full_nested_of_good cfg (by decide) cfgn (by decide)\n#print axioms nested_holds\n")
+    elif not reserve[0]:
+        body += ("/-- next_agent_id is not incremented before the factory is called: a factory that creates an agent reuses the id. -/\n"
+                 "theorem nested_violated : ¬ C14_full_nested cfg cfgn := C14_witness_nested_factory cfg cfgn (by decide)\n#print axioms nested_violated\n")
+        if not reserve[1]:
+            body += ("/-- ... nor before initialize(): an initialize() that creates an agent reuses the id. -/\n"
+                     "theorem nested_violated_init : ¬ C14_full_nested cfg cfgn := C14_witness_nested_late cfg cfgn (by decide) (by decide)\n#print axioms nested_violated_init\n")
+    if reserve[1]:
+        body += ("/-- re-entrant creation from initialize() alone is safe already when the id is reserved before initialize(). -/\n"
+                 "theorem nested_init_only : type_of% @C14_full_nested_init_only := @C14_full_nested_init_only\n#print axioms nested_init_only\n")
     return ("import Bptk.Props.C14\n/-! GENERATED by harness/props/c14.py from /repo on every run — do not edit. -/\n"
             "namespace Bptk.C14.Gen\n"
-            f"def cfg : Cfg := {{ countById := {b}, idsAliased := {a}, deleteArgSnapshot := {d} }}\n" + body + "end Bptk.C14.Gen\n")
+            f"def cfg : Cfg := {{ countById := {b}, idsAliased := {a}, deleteArgSnapshot := {d} }}\n"
+            f"def cfgn : CfgN := {{ idReservedBeforeFactory := {tf(reserve[0])}, idReservedBeforeInitialize := {tf(reserve[1])} }}\n"
+            + body + "end Bptk.C14.Gen\n")
 
 
 # ------------------------------------------------------------------ generators
@@ -595,6 +705,27 @@ def rand_ownargs_history(rng, mode):
     return Hist(ops, None, mode, "random-ownargs")
 
 
+NESTS = [
+    {0: ([], [1, 1])},                       # a firm hires two workers in initialize()
+    {0: ([1], [])},                          # ... in its factory / constructor
+    {0: ([1], [0]), 1: ([], [1])},           # both phases, same and other type, grandchildren
+    {0: ([], [1]), 1: ([0], [])},            # mutual: a's initialize creates b, b's factory creates a (depth bound stops it)
+    {1: ([1, 0], [0])},
+]
+
+
+def exhaustive_nest(L, nest):
+    """Every history of length L over the small alphabet with nesting types (full mode)."""
+    def rec(prefix, sh, depth):
+        if depth == L:
+            yield Hist(prefix, None, "full", "exhaustive-nest", nest); return
+        for op in concrete_ops(sh.live, sh.next):
+            s2 = sh.copy()
+            s2.apply(op)
+            yield from rec(prefix + [op], s2, depth + 1)
+    yield from rec([], Shadow(None, nest), 0)
+
+
 def exhaustive_nodes(L, Lmin):
     """Every history of length Lmin+1..L over the alphabet, as its own case with ONE full query at the
     end (mode sparse): the states of all longer histories, without the intermediate queries."""
@@ -632,8 +763,8 @@ def rand_query(rng, sh):
     return ("q", "rnd", rng.below(2) if rng.chance(9, 10) else 2, num, [rng.choice([0, 63, 32, rng.below(64)]) for _ in range(num)])
 
 
-def rand_history(rng, mode, fac=None, offcontract=False, alias=False):
-    sh, ops = Shadow(fac), []
+def rand_history(rng, mode, fac=None, offcontract=False, alias=False, nest=None):
+    sh, ops = Shadow(fac, nest), []
     for _ in range(rng.range(5, 40)):
         r = rng.below(12)
         if mode == "sparse" and rng.chance(1, 2):
@@ -658,7 +789,8 @@ def rand_history(rng, mode, fac=None, offcontract=False, alias=False):
         else:
             op = ("reset",)
         sh.apply(op); ops.append(op)
-    return Hist(ops, fac, mode, "random-" + mode + ("-anyattr" if not is_faithful(fac) else "") + ("-offcontract" if offcontract else "") + ("-alias" if alias else ""))
+    return Hist(ops, fac, mode, "random-" + mode + ("-anyattr" if not is_faithful(fac) else "") + ("-offcontract" if offcontract else "") + ("-alias" if alias else "")
+                + ("-nest" if nest else ""), nest)
 
 
 def lookup_patterns(rng, n):
@@ -719,6 +851,10 @@ def histories(chk):
         yield rand_history(rng, rng.choice(["full", "sparse"]), rng.choice(UNFAITHFUL + [None, None]), offcontract=True)
     for _ in range(n // 5):
         yield rand_history(rng, rng.choice(["full", "sparse"]), None, alias=True)
+    for ni, nest in enumerate(NESTS):
+        yield from exhaustive_nest((3 if ni < 3 else 2) if chk.quick else (4 if ni < 3 else 3), nest)
+    for _ in range(n // 2):
+        yield rand_history(rng, rng.choice(["full", "sparse"]), None, nest=rng.choice(NESTS))
     yield from exhaustive_ownargs(3 if chk.quick else 5)
     for _ in range(n // 2):
         yield rand_ownargs_history(rng, rng.choice(["full", "sparse"]))
@@ -735,9 +871,11 @@ def run(chk):
     count_by_id = probe_count_by_id()
     alias = probe_alias()
     snapshot = probe_delete_snapshot()
-    chk.notes["cfg"] = {"countById": count_by_id, "idsAliased": alias["idsAliased"], "deleteArgSnapshot": snapshot}
+    reserve = probe_id_reservation()
+    chk.notes["cfg"] = {"countById": count_by_id, "idsAliased": alias["idsAliased"], "deleteArgSnapshot": snapshot,
+                        "idReservedBeforeFactory": reserve[0], "idReservedBeforeInitialize": reserve[1]}
     chk.notes["alias_probe"] = alias
-    ok, why = chk.prove(gen_lean(count_by_id, alias["idsAliased"], snapshot))
+    ok, why = chk.prove(gen_lean(count_by_id, alias["idsAliased"], snapshot, reserve))
     chk.cov["trusted_base"] = [
         "Lean 4.33 kernel; axioms propext, Classical.choice, Quot.sound (audited per run via #print axioms)",
         "hand-written model lean/Bptk/Core/C14.lean of Model.create_agent(s)/delete_agent(s)/configure_agents/configure/reset and the queries agent/agent_ids/agent_count/agent_count_per_state/next_agent/random_agents; tied to /repo by the correspondence run of this check and by the probes of agent_count_per_state and of agent_ids aliasing",
@@ -747,7 +885,10 @@ def run(chk):
                        "agent factories are registered before the first operation and not re-registered (register_agent_factory empties the type's id list)",
                        "callers do not mutate the list returned by agent_ids (it is the registry's own list: C14_alias_witness); passing it "
                        "(or agent_type_map[T]) to delete_agents, or deleting while iterating it, IS covered (wave 4: C14_full_aliased)",
-                       "random.random() returns a value in [0, 1]"]
+                       "random.random() returns a value in [0, 1]",
+                       "re-entrant creation: create_agent may be called from factories and from initialize() (any depth: C14_full_nested); "
+                       "an initialize()/factory that DELETES or reconfigures is not modelled (operations other than creation are taken to "
+                       "happen outside create_agent)"]
     L, anyf, L7, _ = bounds(chk)
     chk.cov["rule"] = (f"all histories of length {L} over the alphabet {{create a, create b, delete oldest, delete newest, "
                        f"delete missing, configure, reset, set-state oldest/newest}} instantiated on the live population "
@@ -755,13 +896,15 @@ def run(chk):
                        + (f"every history of length {L + 1}..{L7} with all queries at its end; " if L7 else "")
                        + "seeded random histories of length 5..40 in two modes (all queries after every operation / queries as sparse operations incl. "
                        "lookups of never-, no-longer- and again-alive ids and random_agents with scripted draws), deletions whose argument is the model's own list (delete_agents(agent_ids(T)), "
-                       "delete_agents(agent_type_map[T]), delete_agent while iterating agent_ids(T), delete_agents(held list)): all histories "
+                       "delete_agents(agent_type_map[T]), delete_agent while iterating agent_ids(T), delete_agents(held list)); re-entrant creation "
+                       "(5 tables of agent types whose factory / initialize() create 1-2 further agents, nesting depth <= 2: all histories of "
+                       f"length {'3/2' if chk.quick else '4/3'} over the small alphabet, and random ones); all histories "
                        f"of length {3 if chk.quick else 5} over a 10-letter alphabet with them, and random ones; lookup patterns around every clearing "
                        "operation with the same agent counts, Model.configure, unfaithful factories, unregistered types, caller appends; "
                        "a case is the canonical op sequence; non-trivial = contains at least one deletion/configure/reset")
     chk.cov["exhaustive"] = False
     head = [f"cfg countById {1 if count_by_id else 0}", f"cfg idsAliased {1 if alias['idsAliased'] else 0}",
-            f"cfg deleteArgSnapshot {1 if snapshot else 0}"]
+            f"cfg deleteArgSnapshot {1 if snapshot else 0}", f"cfgn {1 if reserve[0] else 0} {1 if reserve[1] else 0}"]
     st = {"spec": None, "contract": None, "off": None, "rnd": None, "n": 0, "skipped": 0, "n_rnd": 0}
     kinds, tags = {}, {}
 
@@ -839,10 +982,14 @@ def run(chk):
     if first_spec_fail is not None:
         h, (idx, v) = first_spec_fail
         key0 = v[0][0]
-        small = shrink(Hist(h.ops[:idx + 1], h.fac, h.mode, h.tag), lambda c: any(x[0] == key0 for _, vs in run_history(c)[2] for x in vs))
+        small = shrink(Hist(h.ops[:idx + 1], h.fac, h.mode, h.tag, h.nest), lambda c: any(x[0] == key0 for _, vs in run_history(c)[2] for x in vs))
         _, _, vv = run_history(small)
         rp = small.replay(); rp["violations"] = vv[0][1]
         chk.add_finding(key0, f"after {small.lines()}: {vv[0][1][0][1]}", rp)
+    if not (reserve[0] and reserve[1]) and first_spec_fail is None:
+        chk.add_finding("ids-not-unique", f"probe: next_agent_id is incremented before the factory call: {reserve[0]}, before initialize(): {reserve[1]}; "
+                                          "an agent created from inside that window gets the id of the agent being created",
+                        {"ops": ["create 0"], "nest": {"0": [[1], [1]]}, "mode": "full"})
     if not snapshot and first_spec_fail is None:
         chk.add_finding("agent_ids", "probe: create a x4, b; delete_agents(agent_ids('a')): dead ids stay listed / live agents wrong",
                         {"ops": ["create 0"] * 4 + ["create 1", "deleteown 0 ids"], "mode": "full"})
@@ -866,8 +1013,9 @@ def replay(path):
     variants = r.get("variants") or [0] * len(r.get("ops", []))
     ops = [parse_line(l, v) for l, v in zip(r.get("ops", []), variants)]
     fac = {int(k): v for k, v in (r.get("fac") or {}).items()} or None
-    _, _, viols = run_history(Hist(ops, fac, r.get("mode", "full"), "replay"))
-    print("fac:", fac, "mode:", r.get("mode", "full"))
+    nest = {int(k): (list(v[0]), list(v[1])) for k, v in (r.get("nest") or {}).items()} or None
+    _, _, viols = run_history(Hist(ops, fac, r.get("mode", "full"), "replay", nest))
+    print("fac:", fac, "nest:", nest, "mode:", r.get("mode", "full"))
     print("ops:", r.get("ops"))
     print("violations on the current tree:", viols)
     return 1 if viols else 0
